@@ -12,7 +12,10 @@ def run(ses):
     # declared dtype / shape == dtype / shape of the loaded selection (all row selections incl. empty, both sample types)
     from pyvc.harness import run_cases
 
-    run_cases(ses, "props.arraychain", "case_getitem", [("IU2", "slice_sym", "slice_none"), ("C*8", "slice_sym", "slice_none")])
+    run_cases(ses, "props.arraychain", "case_getitem", [("IU2", "slice_sym", "slice_none"), ("C*8", "slice_sym", "slice_none"),
+                                                        # an integer on either axis drops exactly that axis, whatever the other key
+                                                        ("IU2", "int", "slice_sym"), ("IU2", "slice_sym", "int"), ("IU2", "int", "int"),
+                                                        ("C*8", "int", "slice_sym")])
     from props import arraychain as _ac
 
     _ac.resolve_limits(ses)
